@@ -227,10 +227,16 @@ def run(ctx):
             ctx.mismatch("c06", replay, "answer", out)
             continue
         o = out["ok"]
+        dead_unknown = o.get("dead") == "unknown"
+        if dead_unknown:
+            # the spec-level exploration of derivative sets did not finish within its allowance (very large expressions of the
+            # thorough tier): no verdict on dead ends from this route — the compiler model's own test (compile tie) still decides
+            ctx.count("spec-dead-end:unknown")
+            o = dict(o, dead=False)
         model_accepts = o["parse"] == "ok" and not o.get("dead")
         ctx.count("class:" + (o["parse"] if o["parse"] != "ok" else ("dead-end" if o.get("dead") else "ok")))
         # every node type's expression must be acceptable for the schema to be built; for enum schemas only doc varies
-        if name == "enum" or accepted:
+        if (name == "enum" or accepted) and not dead_unknown:
             if accepted != model_accepts and name == "enum":
                 ctx.violation("accept-reject", "Schema() and the documented grammar disagree on whether the expression is well-formed",
                               dict(replay, schema_built=accepted, model=o))
@@ -246,6 +252,8 @@ def run(ctx):
                     r["matcher"] = w[1]
                     r["expression"] = w[2]
                     ctx.violation("not-equivalent", "compiled automaton and expression differ (distinguishing child sequence found by the verified checker's search)", r)
+                elif o.get("searchExhausted"):
+                    ctx.count("certificate-search:exhausted")     # no certificate and no witness within the allowance: no verdict
                 else:
                     ctx.mismatch("equivCheck", r, "equivalent", o)
             elif bundled:
